@@ -1275,6 +1275,7 @@ pub fn run_c02(ctx: &mut Ctx) {
         byte-mutated copies, the upstream fuzz corpus with and without repaired CRCs; configurations: 8 transformation subsets x limits {64 KiB, 1 MiB, unlimited} x checksum/text/iCCP options; \
         histories: exhaustive call sequences up to a bounded length over {next_frame, next_row, read_row, next_frame_info, finish} on a small file set, random sequences up to 40 calls, and schedules where the input ends temporarily \
         (calls retried or changed after UnexpectedEof, input grown in between); every call under catch_unwind in a build with debug assertions and overflow checks; oracle: no panic; traces vs the Lean Reader model; \
+        getters: huge dimensions (products just below / above 2^64 for every pixel size involved) x {gray, RGB} x {8, 16} x tRNS x 8 transformation subsets x Limits {default, usize::MAX}: read_info, every getter of Reader and Info, a call, every getter again; \
         non-trivial = at least 2 calls after read_info; distinct = hash(file, configuration, sequence)".into();
     let mut rng = ctx.rng.fork(1);
     let mut files = corpus::mixed_files(&mut rng, ctx.n(80, 200), ctx.n(160, 500), ctx.n(600, 1416));
@@ -1372,6 +1373,7 @@ pub fn run_c02(ctx: &mut Ctx) {
     }
     model_batch(ctx, &runs, &traces, "c02");
     directed_probes(ctx);
+    getter_probes(ctx);
     systematic_families(ctx);
     short_buffer_calls(ctx);
 }
@@ -1810,8 +1812,311 @@ fn directed_probes(ctx: &mut Ctx) {
 }
 
 // ------------------------------------------------------------------------------------------------
+// getters on huge geometry (D25: `output_buffer_size()` overflowed when a tRNS chunk widened the output pixels; D26:
+// `Info::raw_bytes()` overflowed on the filter bytes / under STRIP_16)
+
+/// output bytes per pixel of a gray / RGB image of 8 or 16 bits, as DOCUMENTED for `Transformations` (independent of the crate
+/// and of the model): STRIP_16 halves 16-bit samples; EXPAND / ALPHA add an alpha sample when there is a tRNS chunk or ALPHA is set
+fn ref_out_bpp(color: u8, depth: u8, trns: bool, flags: u8) -> u128 {
+    let (expand, strip, alpha) = (flags & 1 != 0, flags & 2 != 0, flags & 4 != 0);
+    let bytes = if depth == 16 && !strip { 2 } else { 1 };
+    let mut samples = if color == 2 { 3 } else { 1 };
+    if (expand || alpha) && (trns || alpha) {
+        samples += 1;
+    }
+    samples * bytes
+}
+
+struct GetterProbe {
+    file: Vec<u8>,
+    flags: u8,
+    limit: Option<usize>,
+    what: String,
+    /// where the dimensions lie relative to the three products (reference arithmetic in u128), for the histogram
+    region: &'static str,
+}
+
+/// one probe: `read_header_info` + `Info` accessors, `read_info`, every getter, a call, every getter again - each under `guarded`.
+/// Returns the tokens of the calls the model knows (`ri`, `obs`, `ols<w>`, `rb`, `fin`) and the panics as (getter name, site).
+fn run_getter_probe(p: &GetterProbe) -> (Vec<String>, Vec<(String, String)>) {
+    let rd = PieceReader::new(p.file.clone(), vec![]);
+    rd.visible.store(p.file.len(), Ordering::SeqCst);
+    let mut dec = png::Decoder::new_with_options(rd, decode_options(&DEFAULT_OPTS));
+    if let Some(l) = p.limit {
+        dec.set_limits(png::Limits { bytes: l });
+    }
+    dec.set_transformations(rops::transformations(p.flags));
+    let mut tokens = vec![];
+    let mut panics: Vec<(String, String)> = vec![];
+    // the accessors of the `Info` a `Decoder` hands out after the header
+    let r = guarded(move || {
+        let mut found: Vec<(String, String)> = vec![];
+        if let Ok(info) = dec.read_header_info() {
+            let info = info.clone();
+            for (name, f) in info_accessors() {
+                if let Err(site) = guarded(|| f(&info)) {
+                    found.push((format!("decoder.info.{}", name), site));
+                }
+            }
+        }
+        (dec, found)
+    });
+    let dec = match r {
+        Ok((d, found)) => {
+            panics.extend(found);
+            d
+        }
+        Err(site) => {
+            panics.push(("read_header_info".into(), site));
+            return (tokens, panics);
+        }
+    };
+    let mut reader = match guarded(move || dec.read_info()) {
+        Ok(Ok(r)) => {
+            tokens.push("hdr".to_string());
+            r
+        }
+        Ok(Err(e)) => {
+            tokens.push(format!("err({})", match e {
+                png::DecodingError::LimitsExceeded => "limits",
+                png::DecodingError::Format(_) => "format",
+                png::DecodingError::Parameter(_) => "parameter",
+                png::DecodingError::IoError(_) => "eof",
+            }));
+            return (tokens, panics);
+        }
+        Err(site) => {
+            tokens.push(format!("PANIC({})", site));
+            panics.push(("read_info".into(), site));
+            return (tokens, panics);
+        }
+    };
+    let w = reader.info().width;
+    for round in 0..2 {
+        // the getters the model knows, as tokens
+        let getters: Vec<(String, Box<dyn Fn(&png::Reader<PieceReader>) -> usize>)> = vec![
+            ("output_buffer_size".into(), Box::new(|r| r.output_buffer_size())),
+            (format!("output_line_size({})", w), Box::new(move |r| r.output_line_size(w))),
+            ("output_line_size(u32::MAX)".into(), Box::new(|r| r.output_line_size(u32::MAX))),
+            ("output_line_size(0)".into(), Box::new(|r| r.output_line_size(0))),
+            ("info.raw_bytes".into(), Box::new(|r| r.info().raw_bytes())),
+        ];
+        for (name, f) in &getters {
+            match guarded(|| f(&reader)) {
+                Ok(n) => tokens.push(format!("size({})", n)),
+                Err(site) => {
+                    tokens.push(format!("PANIC({})", site));
+                    panics.push((name.split('(').next().unwrap_or(name).to_string(), site));
+                }
+            }
+        }
+        // the others: no panic is all that is asked
+        if let Err(site) = guarded(|| { let _ = reader.output_color_type(); }) {
+            panics.push(("output_color_type".into(), site));
+        }
+        let info = reader.info().clone();
+        for (name, f) in info_accessors() {
+            if name == "raw_bytes" {
+                continue;
+            }
+            if let Err(site) = guarded(|| f(&info)) {
+                panics.push((format!("info.{}", name), site));
+            }
+        }
+        if round == 0 {
+            // a call in between: `finish` reads the (tiny) rest of the stream
+            match guarded(|| reader.finish()) {
+                Ok(Ok(())) => tokens.push("ok".into()),
+                Ok(Err(e)) => tokens.push(format!("err({})", match e {
+                    png::DecodingError::LimitsExceeded => "limits",
+                    png::DecodingError::Format(_) => "format",
+                    png::DecodingError::Parameter(_) => "parameter",
+                    png::DecodingError::IoError(_) => "eof",
+                })),
+                Err(site) => {
+                    tokens.push(format!("PANIC({})", site));
+                    panics.push(("finish".into(), site));
+                    break;
+                }
+            }
+        }
+    }
+    (tokens, panics)
+}
+
+fn info_accessors() -> Vec<(&'static str, fn(&png::Info<'static>) -> usize)> {
+    vec![
+        ("raw_bytes", |i| i.raw_bytes()),
+        ("raw_row_length", |i| i.raw_row_length()),
+        ("raw_row_length_from_width(u32::MAX)", |i| i.raw_row_length_from_width(u32::MAX)),
+        ("raw_row_length_from_width(0)", |i| i.raw_row_length_from_width(0)),
+        ("bits_per_pixel", |i| i.bits_per_pixel()),
+        ("bytes_per_pixel", |i| i.bytes_per_pixel()),
+        ("size", |i| { let (w, h) = i.size(); (w as usize) ^ (h as usize) }),
+        ("is_animated", |i| i.is_animated() as usize),
+    ]
+}
+
+fn getter_model_line(p: &GetterProbe, w: u32) -> String {
+    format!(
+        "rdr run {} {} {} {} {} ri,obs,ols{},ols4294967295,ols0,rb,fin,obs,ols{},ols4294967295,ols0,rb",
+        opts_string(&DEFAULT_OPTS),
+        p.limit.map(|l| l.to_string()).unwrap_or("67108864".into()),
+        p.flags,
+        hex(&p.file),
+        p.file.len(),
+        w,
+        w
+    )
+}
+
+fn getter_case(p: &GetterProbe) -> J {
+    J::obj().set("kind", J::s("getter-probe")).set("file", J::s(&hex(&p.file))).set("flags", J::i(p.flags))
+        .set("limit", J::s(&p.limit.map(|l| l.to_string()).unwrap_or("default".into()))).set("what", J::s(&p.what))
+}
+
+/// tokens up to the first PANIC on either side must be equal; a PANIC must be a PANIC on both sides
+fn getter_tokens_agree(model: &str, tokens: &[String]) -> bool {
+    let mt = model.split(" | ").next().unwrap_or("");
+    let mtoks: Vec<&str> = mt.split(' ').collect();
+    for (i, tok) in tokens.iter().enumerate() {
+        let m = match mtoks.get(i) {
+            Some(m) => *m,
+            None => return false,
+        };
+        let (ip, mp) = (tok.starts_with("PANIC"), m.starts_with("PANIC"));
+        if ip || mp {
+            if ip != mp {
+                return false;
+            }
+            continue;
+        }
+        if m != tok {
+            return false;
+        }
+    }
+    // after a failed read_info the model answers the remaining tokens with err(parameter): nothing to compare
+    tokens.len() == mtoks.len() || tokens.len() == 1
+}
+
+fn eval_getter_probes(ctx: &mut Ctx, probes: &[GetterProbe]) {
+    let mut lines = vec![];
+    let mut results = vec![];
+    for p in probes {
+        let (tokens, panics) = run_getter_probe(p);
+        ctx.rep.eval(true, fnv64(&p.file) ^ ((p.flags as u64) << 8) ^ p.limit.map(|l| l as u64).unwrap_or(7));
+        ctx.rep.count("directed probe", "getters-huge-geometry");
+        ctx.rep.count("getter probe: region (limit, dimensions)", &format!("{} / {}", if p.limit.is_some() { "usize::MAX" } else { "default" }, p.region));
+        ctx.rep.count("getter probe: read_info", tokens.first().map(|s| s.as_str()).unwrap_or("-"));
+        for (name, site) in &panics {
+            ctx.rep.violation("oracle", &format!("panic/getter/{}", name), &format!("getter probe {}: {} panicked: {}", p.what, name, site), getter_case(p));
+        }
+        let w = u32::from_be_bytes([p.file[16], p.file[17], p.file[18], p.file[19]]);
+        lines.push(getter_model_line(p, w));
+        results.push((tokens, panics.is_empty()));
+    }
+    let answers = model::ask(&lines);
+    for (i, p) in probes.iter().enumerate() {
+        ctx.rep.model_compared += 1;
+        if model::outside_domain(&answers[i]) {
+            ctx.rep.model_gaps += 1;
+            continue;
+        }
+        if !getter_tokens_agree(&answers[i], &results[i].0) {
+            ctx.rep.violation("model", "reader-model/getters", &format!("getter probe {}: model `{}` vs implementation `{}`", p.what, cut(&answers[i]), cut(&results[i].0.join(" "))), getter_case(p));
+        }
+    }
+}
+
+/// huge dimensions x {gray, RGB} x {8, 16} x tRNS present / absent x all 8 transformation subsets x Limits {default, usize::MAX}:
+/// `read_info`, then every getter, a call, every getter again.  Oracle: no panic.  Model: the class of `read_info`'s result and the
+/// values of `output_buffer_size()`, `output_line_size(w)`, `info().raw_bytes()`.
+fn getter_probes(ctx: &mut Ctx) {
+    let mut rng = ctx.rng.fork(0x6e77);
+    let z = zlib_stream(&[0, 1, 2, 3, 0, 4, 5, 6], &Deflater::Stored(100));
+    let per_k = ctx.n(1, 3);
+    let mut probes = vec![];
+    for color in [0u8, 2] {
+        for depth in [8u8, 16] {
+            for trns in [false, true] {
+                for flags in 0u8..8 {
+                    let bi = ref_out_bpp(color, depth, false, 0);
+                    let bo_hdr = ref_out_bpp(color, depth, false, flags);
+                    let bo_fin = ref_out_bpp(color, depth, trns, flags);
+                    // dimensions: fixed extremes, the D25 file's, and for each pixel size k that one of the products uses the pairs
+                    // (w, h) and (w + 1, h) with k·w·h just below / just above 2^64
+                    let mut dims: Vec<(u32, u32)> = vec![(0x6000_0000, 0x6000_0000), (u32::MAX, u32::MAX), (0x8000_0000, 0x8000_0000), (u32::MAX, 1), (1, u32::MAX), (0x1_0000, 0x1_0000)];
+                    let mut ks = vec![bi, bo_hdr, bo_fin];
+                    ks.sort();
+                    ks.dedup();
+                    for &k in &ks {
+                        for _ in 0..per_k {
+                            let h = rng.range(1 << 31, u32::MAX as u64) as u128;
+                            let w = ((1u128 << 64) - 1) / (k * h);
+                            if w >= 1 && w < u32::MAX as u128 {
+                                dims.push((w as u32, h as u32));
+                                dims.push((w as u32 + 1, h as u32));
+                            }
+                        }
+                    }
+                    // the filter byte of every row: bi·w·h < 2^64 <= (bi·w + 1)·h (what `raw_bytes()` multiplies)
+                    for _ in 0..64 {
+                        let h = rng.range(1 << 31, u32::MAX as u64) as u128;
+                        let w = ((1u128 << 64) - 1) / (bi * h);
+                        if w >= 1 && w <= u32::MAX as u128 && bi * w * h < (1u128 << 64) && (bi * w + 1) * h >= (1u128 << 64) {
+                            dims.push((w as u32, h as u32));
+                            break;
+                        }
+                    }
+                    for (w, h) in dims {
+                        let mut cs = vec![ihdr(w, h, depth, color, 0)];
+                        if trns {
+                            cs.push(RawChunk::new(b"tRNS", if color == 2 { vec![0, 1, 0, 2, 0, 3] } else { vec![0, 1] }));
+                        }
+                        cs.push(RawChunk::new(b"IDAT", z.clone()));
+                        cs.push(RawChunk::new(b"IEND", vec![]));
+                        let file = serialize(&cs);
+                        for limit in [None, Some(usize::MAX)] {
+                            // with the default limits every huge row is refused before any getter exists: one transformation set is enough there
+                            if limit.is_none() && !(flags == 1 || flags == 0) {
+                                continue;
+                            }
+                            let (wh, two64) = (w as u128 * h as u128, 1u128 << 64);
+                            let region = if bo_hdr * wh >= two64 {
+                                "refused by the first check"
+                            } else if bo_fin * wh >= two64 {
+                                "output widened by tRNS overflows (D25)"
+                            } else if (bi * w as u128 + 1) * h as u128 >= two64 {
+                                "only raw_bytes exceeds usize (D26)"
+                            } else {
+                                "everything fits"
+                            };
+                            probes.push(GetterProbe { file: file.clone(), flags, limit, region, what: format!("{}x{} c{} d{} trns={} flags={} limit={}", w, h, color, depth, trns as u8, flags, if limit.is_some() { "max" } else { "default" }) });
+                        }
+                    }
+                }
+            }
+        }
+    }
+    eval_getter_probes(ctx, &probes);
+}
+
+// ------------------------------------------------------------------------------------------------
 
 pub fn replay(prop: &str, ctx: &mut Ctx, c: &J) {
+    if c.get("kind").and_then(|k| k.as_str()) == Some("getter-probe") {
+        let file = c.get("file").and_then(|f| f.as_str()).and_then(unhex).unwrap_or_default();
+        let flags = c.get("flags").and_then(|f| f.as_i64()).unwrap_or(0) as u8;
+        let limit = c.get("limit").and_then(|f| f.as_str()).and_then(|s| s.parse::<usize>().ok());
+        let p = GetterProbe { file, flags, limit, region: "replay", what: c.get("what").and_then(|f| f.as_str()).unwrap_or("replay").to_string() };
+        let (tokens, panics) = run_getter_probe(&p);
+        println!("implementation: {}", tokens.join(" "));
+        for (name, site) in &panics {
+            println!("panic in {}: {}", name, site);
+        }
+        eval_getter_probes(ctx, &[p]);
+        return;
+    }
     if c.get("kind").and_then(|k| k.as_str()) == Some("low-level-terminal") {
         let bytes = c.get("file").and_then(|f| f.as_str()).and_then(unhex).unwrap_or_default();
         let f = corpus::TestFile { bytes, source: "replay".into(), model_domain: false };
